@@ -100,7 +100,9 @@ class ValueAllocator:
 
         did_allocate = False
 
-        for val in vals:
+        # The same value may appear several times (e.g. a loop yielding its own block
+        # argument); it must be replaced only once, the old value is erased.
+        for val in dict.fromkeys(vals):
             if val.type != reg_type:
                 self._replace_value_with_new_type(val, reg_type)
                 did_allocate = True
